@@ -39,6 +39,7 @@ static uint64_t n_accept=0,n_reject=0;
 static void try_cookie(World &w,const std::string &cookie,const std::string &how){ vf::eval(); Jar jar; jar.value=cookie; session_interface si(*w.pool,jar); std::string data="UNTOUCHED"; time_t exp=0; bool ok=false;
 	try{ ok=w.cookies->load(si,data,exp); }catch(std::exception const &e){ bad("load:throws:"+w.cfg->label,"session_cookies::load throws: "+std::string(e.what()),how); return; }
 	std::string cipher; bool dec= cookie.size()>=1&&cookie[0]=='C'&&b64url::decode(cookie.substr(1),cipher);
+	{ static uint64_t sc=0; if(vf::sample_tick(sc,100003)) vf::sample("{\"case\":"+vf::jstr(how)+",\"cookie_prefix\":"+vf::jstr(cookie.substr(0,24))+",\"accepted\":"+(ok?"true":"false")+"}"); }
 	if(ok){ n_accept++; std::map<std::string,Issued>::iterator it= dec? w.issued.find(cipher):w.issued.end(); if(it==w.issued.end()) bad("load:forged-accepted:"+w.cfg->label,"a cookie that does not decode to a cipher text this server issued is accepted",how+" cookie="+cookie.substr(0,60));
 		else { if(it->second.data!=data||it->second.expiry!=exp) bad("load:wrong-content:"+w.cfg->label,"load returns data/expiry different from the save that produced this cipher text",how); if(exp<g_now) bad("load:expired-accepted:"+w.cfg->label,"an expired cookie is accepted",how); }
 		if(jar.cleared) bad("load:cleared-valid:"+w.cfg->label,"a valid cookie was cleared",how); }
